@@ -358,6 +358,8 @@ def loss_case(driver, seed, part, i, res, base_times):
             probs = state_problems(sim, driver)
             if probs:
                 res.violation(f"C17/{driver}/state-not-clean", "; ".join(probs), wit)
+        if getattr(sim, 'hostile_calls', 0):
+            res.hit('hostile_listener_runs')
         if sim.loop.errors:
             res.violation(f"C17/{driver}/internal-error", f"exception in a callback/task: {sim.loop.errors[0]}", wit)
         if i == 0:
@@ -493,6 +495,8 @@ def cancel_case(driver, seed, k, after, res):
         probs = state_problems(sim, driver)
         if probs:
             res.violation(f"C17/{driver}/state-not-clean/after-cancel", "; ".join(probs), wit)
+        if getattr(sim, 'hostile_calls', 0):
+            res.hit('hostile_listener_runs')
         if sim.loop.errors:
             res.violation(f"C17/{driver}/internal-error", f"exception in a callback/task: {sim.loop.errors[0]}", wit)
     finally:
